@@ -1,0 +1,7 @@
+//go:build !verif
+
+package kcp
+
+// No-op stubs of the buffer-pool sanitizer call-outs (see verif_pool_on.go); inlined away.
+func verifPoolGet([]byte) {}
+func verifPoolPut([]byte) {}
